@@ -159,9 +159,8 @@ func VH_C13_S3_MergeSparseShortKeyID() {
 	}
 	l := verifrt.Choose("len", 2)
 	ents = append(ents, malformedEntry("bad", l))
-	if _, ok := checkMergeSparse("S3", p, keys, ents); ok {
-		verifrt.Reach("S3-short-id-handled")
-	}
+	verifrt.Reach("S3-short-id-offered")
+	checkMergeSparse("S3", p, keys, ents)
 }
 
 // VH_C13_S4_MergeSparseLongKeyID: a 3-byte key id is not a key id of this scheme
